@@ -38,8 +38,6 @@ Definition RETRY_CAP : N := 2.
 Definition RETRY_TYPES : list bytes :=
   [[79;83;69;114;114;111;114]; [112;97;46;65;114;114;111;119;73;110;118;97;108;105;100];
    [97;105;111;104;116;116;112;46;67;108;105;101;110;116;69;114;114;111;114]].
-(* maybe_externalize_collector writes ALL of out.batches into the external stream *)
-Definition COLLECTOR_SERIALIZES_ALL : bool := true.
 (* _build_pointer_request_body passes no sha256 to make_external_location_batch *)
 Definition REQUEST_POINTER_HAS_SHA : bool := false.
 (* order of the checks inside _fetch_and_resolve, as tags:
@@ -240,17 +238,28 @@ Definition ext_batch (sha_ser : N -> list batch -> bytes) (url : bytes) (c : cfg
   else (pointer (b_schema b) url (Some (sha_ser (b_schema b) [b])),
         Some (mkUpload (b_schema b) [b] (c_comp c))).
 
+(* the cycle up to and including its first data batch, and what follows *)
+Definition is_data (b : batch) : bool := match classify b with KData => true | _ => false end.
+Fixpoint head_tail (w : list batch) : list batch * list batch :=
+  match w with
+  | [] => ([], [])
+  | b :: r => if is_data b then ([b], r) else let '(h, t) := head_tail r in (b :: h, t)
+  end.
+
 (* an OutputCollector cycle: all batches in emission order; [dsize] = buffer size of the data batch, None when
-   the cycle has no data batch (out.data_batch raises) *)
-Definition ext_collector (sha_ser : N -> list batch -> bytes) (url : bytes) (c : cfg)
+   the cycle has no data batch (out.data_batch raises).
+   [ser_all] is the shape of the source: true = the external stream holds ALL of out.batches (the code as found);
+   false = it holds the batches up to and including the data batch and the rest follows the pointer inline. *)
+Definition ext_collector (ser_all : bool) (sha_ser : N -> list batch -> bytes) (url : bytes) (c : cfg)
            (out_schema : N) (cycle : list batch) (dsize : option N) : list batch * option upload :=
   if negb (c_storage c) then (cycle, None)
   else match dsize with
        | None => (cycle, None)
        | Some sz =>
            if sz <? c_thr c then (cycle, None)
-           else ([pointer out_schema url (Some (sha_ser out_schema cycle))],
-                 Some (mkUpload out_schema cycle (c_comp c)))
+           else let '(hd, tl) := if ser_all then (cycle, []) else head_tail cycle in
+                (pointer out_schema url (Some (sha_ser out_schema hd)) :: tl,
+                 Some (mkUpload out_schema hd (c_comp c)))
        end.
 
 (* _build_pointer_request_body: the request batch becomes a zero-row pointer carrying the original
@@ -313,7 +322,7 @@ Definition log_eqb : log -> log -> bool := pair_eqb bytes_eqb bytes_eqb.
 (* ---- correspondence entry point ---- *)
 Inductive case :=
 | CExtBatch (c : cfg) (url : bytes) (tab : list (N * list batch * bytes)) (size : N) (b : batch)
-| CExtColl (c : cfg) (url : bytes) (tab : list (N * list batch * bytes)) (out_schema : N)
+| CExtColl (ser_all : bool) (c : cfg) (url : bytes) (tab : list (N * list batch * bytes)) (out_schema : N)
            (cycle : list batch) (dsize : option N)
 | CReqPtr (req : batch) (url : bytes)
 | CResolve (have_cfg : bool) (max_retries : N) (on_log : bool) (b : batch) (fs : list fetched).
@@ -333,8 +342,8 @@ Definition run_case (c : case) : result :=
   match c with
   | CExtBatch cf url tab sz b =>
       let '(w, u) := ext_batch (tab_lookup tab) url cf sz b in mkResult [w] u [] None
-  | CExtColl cf url tab s cycle dsz =>
-      let '(w, u) := ext_collector (tab_lookup tab) url cf s cycle dsz in mkResult w u [] None
+  | CExtColl sa cf url tab s cycle dsz =>
+      let '(w, u) := ext_collector sa (tab_lookup tab) url cf s cycle dsz in mkResult w u [] None
   | CReqPtr req url =>
       let '(p, u) := request_pointer req url in mkResult [p] (Some u) [] None
   | CResolve hc mr ol b fs =>
